@@ -8,6 +8,8 @@ CONSTANTS
   Variant = "nofp"
   FirstIp = "a1"
   FirstAgent = "u1"
+  XNames = {}
+  MaxExtra = 0
 INVARIANT TypeOK
 INVARIANT Conforms
 INVARIANT SessionBound
